@@ -601,8 +601,8 @@ def build_systems(ctx, n_sys):
         s["stream"] = "synthetic"
         out.append(s)
     # call histories on one object: in-place edits between calls
-    for k in range(max(3, n_sys // 6)):
-        s = make_system(rng, rng.randint(2, 7))
+    for k in range(max(3, n_sys // 9)):
+        s = make_system(rng, rng.randint(2, 6))
         s["frames"] = place(rng, s, rng.randint(1, 3), periodic=rng.random() < 0.3)
         s["oob"] = [rng.randint(-2 * G, 2 * G) for _ in range(3)]
         s["history"] = gen_history(rng, s, ctx.tier)
@@ -732,7 +732,7 @@ Open Scope Z_scope.
 """
 
 
-def run_systems(ctx, systems, batch=4, spec=False):
+def run_systems(ctx, systems, batch=6, spec=False):
     sfx = "_spec" if spec else ""
     payload = {"repo": common.REPO, "tmp": ctx.tmp, "shim": SHIM, "G": G,
                "systems": [{k: s[k] for k in ("residues", "bonds", "frames", "oob", "calls", "history") if k in s}
@@ -753,9 +753,15 @@ def run_systems(ctx, systems, batch=4, spec=False):
     for b0 in range(0, len(systems), batch):
         chunk = list(range(b0, min(len(systems), b0 + batch)))
         prelude = []
+        seen_frames = {}
         for si in chunk:
             prelude.append("Definition topo_%d : topo := %s." % (si, coq_topo(systems[si])))
-            prelude.append("Definition frames_%d : list frame := %s." % (si, coq_frames(systems[si])))
+            fid = id(systems[si]["frames"])          # snapshots of one call history share their frames
+            if fid in seen_frames:
+                prelude.append("Definition frames_%d : list frame := frames_%d." % (si, seen_frames[fid]))
+            else:
+                seen_frames[fid] = si
+                prelude.append("Definition frames_%d : list frame := %s." % (si, coq_frames(systems[si])))
             prelude.append("Definition res_%d : list residue := %s." % (si, coq_residues(systems[si])))
         bh, wn, ks = [], [], []
         for si in chunk:
